@@ -1885,6 +1885,283 @@ def _directed_part(ctx, part):
 
 
 # =================================================================================================
+# layer: the view is the only thing kept.  The ensemble is built inside a helper that returns ONLY a
+# view (by index / from a slice / from an iterator / a pickled or deep-copied view / from a text
+# loader); every other reference is dropped and the garbage collector run; then the view is read,
+# dumped and written through.
+# =================================================================================================
+LIFE_HOW = ["index", "slice", "iterator", "pickle", "deepcopy", "copy", "list-kept", "loader-index"]
+
+
+def _lonely_view(sm, kind, how, grow):
+    """-> (view or list of views, row, expected coords row, expected charges row, name, elements)"""
+    import copy
+    import gc
+    import pickle
+
+    hist = [("new", kind)] + ([("append", "M0")] if grow else [])
+    st = sm.build(hist)
+    e = st.ens
+    nc = st.nc
+    if nc == 0 or st.na == 0:
+        sm.dispose(st)
+        return None
+    row = nc - 1
+    exp = (st.mc[row].copy(), st.mq[row].copy(), e.name, list(st.elements), st.na, int(e.n_bonds))
+    if how == "index":
+        v = e[row]
+    elif how == "slice":
+        v = e[row : row + 1][0]
+    elif how == "iterator":
+        v = None
+        for v in e:
+            pass
+    elif how == "pickle":
+        v = pickle.loads(pickle.dumps(e[row]))
+    elif how == "deepcopy":
+        v = copy.deepcopy(e[row])
+    elif how == "copy":
+        v = copy.copy(e[row])
+    elif how == "list-kept":
+        v = list(e)[row]
+    elif how == "loader-index":
+        v = ConformerEnsemble.loads_xyz(e.dumps_xyz())[row]
+        exp = (exp[0], None, None, exp[3], exp[4], 0)
+    else:
+        raise HarnessError(how)
+    sm.dispose(st)
+    del e, st
+    sm._fx = None if kind in ("atoms2", "atoms0", "kw") else sm._fx
+    gc.collect()
+    return v, row, exp
+
+
+def _life_part(ctx, part):
+    kinds, na = part
+    sm = ESys(ctx, na=na, ncmax=8, nit=2, label="life", kinds=KINDS, full=True)
+    for kind in kinds:
+        for grow in (False, True):
+            for how in LIFE_HOW:
+                try:
+                    got = _lonely_view(sm, kind, how, grow)
+                except HarnessError:
+                    raise
+                except Exception as ex:
+                    ctx.violation(f"lifetime[{how}]:taking-the-view-raised-{exc_name(ex)}", f"{kind}{'+append' if grow else ''}: obtaining the view ({how}) raised {exc_name(ex)}: {ex}", {"layer": "lifetime", "kind": kind, "how": how, "grow": grow, "na": na}, repro=life_repro(how))
+                    ctx.transitions += 1
+                    continue
+                if got is None:
+                    continue
+                v, row, (xc, xq, xname, xel, xna, xnb) = got
+                ctx.transitions += 1
+                ctx.traces += 1
+                sym = None
+                try:
+                    ok = v.n_atoms == xna and [a.element for a in v.atoms] == xel and (xname is None or v.name == xname) and v.n_bonds == xnb
+                    ok = ok and close(v.coords, xc, 6e-7 if how == "loader-index" else 0.0) and (xq is None or eqnan(v.atomic_charges, xq))
+                    if not ok:
+                        sym = "does-not-show-its-row"
+                    else:
+                        fr = parse_xyz(v.dumps_xyz())
+                        fm = parse_mol2(v.dumps_mol2())
+                        if not fr or len(fr) != 1 or not close(np.array(fr[0]["coords"]).reshape((xna, 3)), xc, 6e-7) or not fm or len(fm) != 1:
+                            sym = "dump-differs"
+                        else:
+                            newc, newq = w_coords(xna) + 3.0, w_charges(xna) - 2.0
+                            v.coords = newc
+                            v.atomic_charges = newq
+                            v.translate(TR1)
+                            if not close(v.coords, newc + TR1, 1e-9) or not eqnan(v.atomic_charges, newq):
+                                sym = "write-not-visible-on-re-read"
+                except Exception as ex:
+                    sym = f"raised-{exc_name(ex)}"
+                ctx.outcome(("life", kind, how, grow, sym))
+                ctx.nontrivial(("life", kind, how, grow))
+                if sym:
+                    ctx.violation(
+                        f"lifetime[{how}]:{sym}",
+                        f"{kind}{'+append' if grow else ''}: a conformer ({how}) kept after every other reference to its ensemble was dropped and collected: {sym}",
+                        {"layer": "lifetime", "kind": kind, "how": how, "grow": grow, "na": na},
+                        repro=life_repro(how),
+                    )
+
+
+def life_repro(how):
+    take = {
+        "index": "return ens[1]",
+        "slice": "return ens[1:2][0]",
+        "iterator": "for c in ens: pass\n    return c",
+        "pickle": "return pickle.loads(pickle.dumps(ens[1]))",
+        "deepcopy": "return copy.deepcopy(ens[1])",
+        "copy": "return copy.copy(ens[1])",
+        "list-kept": "return list(ens)[1]",
+        "loader-index": "return ml.ConformerEnsemble.loads_xyz(ens.dumps_xyz())[1]",
+    }[how]
+    return "\n".join(
+        [
+            "import gc, copy, pickle, numpy as np, molli as ml",
+            "def view():",
+            "    ens = ml.ConformerEnsemble(['C', 'H'], n_conformers=2, name='mol'); ens.coords = np.arange(12.).reshape(2, 2, 3)",
+            "    " + take,
+            "v = view(); gc.collect()",
+            "print(v.name, v.n_atoms, v.coords)        # the ensemble lives on through its view",
+            "v.coords = v.coords + 1; print(v.coords[0], v.dumps_xyz())",
+        ]
+    )
+
+
+# =================================================================================================
+# layer: constructor source kinds x keyword arrays.  A keyword array that was given is what the
+# ensemble shows (broadcast over the conformers), everything rectangular.
+# =================================================================================================
+CTOR_SOURCES = ["n_atoms", "atom-list", "molecule", "conformer", "molecule-list", "ensemble", "deserialised-ensemble", "deserialised-molecule"]
+
+
+def _ctor_layer(ctx, part):
+    import itertools
+
+    na = part
+    sm = ESys(ctx, na=na, ncmax=8, nit=2, label="ctor", kinds=KINDS, full=True)
+    st = sm.build([])
+    M, E2 = st.mols, st.e2
+    # deserialised sources
+    lib = sm._lib(ml.ConformerLibrary, sm.libpath_c)
+    try:
+        with lib.writing(timeout=5):
+            lib["k"] = E2
+        with lib.reading(timeout=5):
+            dE = lib["k"]
+    finally:
+        sm._lib_done(lib, sm.libpath_c)
+    lib = sm._lib(ml.MoleculeLibrary, sm.libpath_m)
+    try:
+        with lib.writing(timeout=5):
+            lib["k"] = M[1]
+        with lib.reading(timeout=5):
+            dM = lib["k"]
+    finally:
+        sm._lib_done(lib, sm.libpath_m)
+
+    def source(kind):
+        # -> (positional argument or None, extra keywords, number of conformers the source fixes or None)
+        if kind == "n_atoms":
+            return None, {"n_atoms": na}, None
+        if kind == "atom-list":
+            return mk_atoms(na), {}, None
+        if kind == "molecule":
+            return M[0], {}, "one-if-default"
+        if kind == "conformer":
+            return E2[1], {}, "one-if-default"
+        if kind == "molecule-list":
+            return [M[0], M[1]], {}, 2
+        if kind == "ensemble":
+            return E2, {}, 2
+        if kind == "deserialised-ensemble":
+            return dE, {}, 2
+        if kind == "deserialised-molecule":
+            return dM, {}, "one-if-default"
+        raise HarnessError(kind)
+
+    def value(what, shape, nc):
+        full = {"coords": np.array([w_coords(na) + 11.0 * (i + 1) for i in range(max(nc, 1))]).reshape((max(nc, 1), na, 3)), "charges": np.array([w_charges(na) - 7.0 * (i + 1) for i in range(max(nc, 1))]).reshape((max(nc, 1), na)), "weights": np.array([2.5 + i for i in range(max(nc, 1))])}[what]
+        if shape == "full":
+            return full[:nc] if nc else full[:0]
+        if shape == "row":
+            return full[0] if what != "weights" else 2.5
+        if shape == "one":
+            return full[0:1]
+        raise HarnessError(shape)
+
+    for kind in CTOR_SOURCES:
+        for ncarg in (None, 2, 3):
+            for r in range(0, 4):
+                for given in itertools.combinations(("coords", "charges", "weights"), r):
+                    for shape in ("full", "row", "one") if given else ("full",):
+                        other, kw0, fixes = source(kind)
+                        if fixes is None:
+                            nc = ncarg or 0
+                        elif fixes == "one-if-default":
+                            nc = ncarg or 1
+                        else:
+                            nc = fixes
+                        kw = dict(kw0)
+                        if ncarg is not None:
+                            kw["n_conformers"] = ncarg
+                        vals = {}
+                        for g in given:
+                            vals[g] = value(g, shape, nc)
+                            kw[{"coords": "coords", "charges": "atomic_charges", "weights": "weights"}[g]] = vals[g]
+                        tshape = {"coords": (nc, na, 3), "charges": (nc, na), "weights": (nc,)}
+                        legit = True
+                        expv = {}
+                        for g in given:
+                            try:
+                                expv[g] = np.array(np.broadcast_to(np.asarray(vals[g], dtype=float), tshape[g]), dtype=float)
+                            except ValueError:
+                                legit = False
+                        ctx.transitions += 1
+                        ctx.traces += 1
+                        case = {"layer": "ctor", "source": kind, "n_conformers": ncarg, "given": list(given), "shape": shape, "na": na}
+                        label = f"ctor[{kind}|n_conformers-{'default' if ncarg is None else 'explicit'}]"
+                        try:
+                            e = ConformerEnsemble(other, **kw) if other is not None else ConformerEnsemble(**kw)
+                        except Exception as ex:
+                            ctx.outcome(("ctor", kind, ncarg, given, shape, "raised"))
+                            if legit:
+                                ctx.violation(f"{label}:raised-{exc_name(ex)}", f"ConformerEnsemble({kind}, n_conformers={ncarg}, keyword arrays {list(given)} of form {shape}) raised {exc_name(ex)}: {ex}", case, repro=ctor_repro(case))
+                            continue
+                        shapes = (tuple(e.coords.shape), tuple(e.atomic_charges.shape), tuple(e.weights.shape))
+                        rn = int(e.n_conformers)
+                        rect = shapes == ((rn, na, 3), (rn, na), (rn,)) and int(e.n_atoms) == na
+                        ctx.outcome(("ctor", kind, ncarg, given, shape, shapes))
+                        ctx.nontrivial(("ctor", kind, ncarg, given, shape))
+                        if not rect:
+                            ctx.violation(f"{label}:not-rectangular", f"ConformerEnsemble({kind}, n_conformers={ncarg}, {list(given)} as {shape}): shapes {shapes}, n_atoms {e.n_atoms}", case, repro=ctor_repro(case))
+                            continue
+                        if not legit:
+                            continue  # a form that does not broadcast: accepted or rejected, but rectangular
+                        if rn != nc:
+                            ctx.violation(f"{label}:conformer-count-differs", f"ConformerEnsemble({kind}, n_conformers={ncarg}, {list(given)} as {shape}) has {rn} conformers, expected {nc}", case, repro=ctor_repro(case))
+                            continue
+                        real = {"coords": e.coords, "charges": e.atomic_charges, "weights": e.weights}
+                        for g in given:
+                            if not eqnan(np.asarray(real[g], dtype=float), expv[g]):
+                                ctx.violation(f"{label}:keyword-array-not-shown[{g}]", f"ConformerEnsemble({kind}, n_conformers={ncarg}, {list(given)} as {shape}): the {g} given are not what the ensemble shows", case, repro=ctor_repro(case))
+    sm.dispose(st)
+
+
+def ctor_repro(case):
+    src = {
+        "n_atoms": "n_atoms=2",
+        "atom-list": "['C', 'H']",
+        "molecule": "mol",
+        "conformer": "ml.ConformerEnsemble([mol, mol])[1]",
+        "molecule-list": "[mol, mol]",
+        "ensemble": "ml.ConformerEnsemble([mol, mol])",
+        "deserialised-ensemble": "ml.ConformerEnsemble([mol, mol])   # (the check reads it from a ConformerLibrary)",
+        "deserialised-molecule": "mol   # (the check reads it from a MoleculeLibrary)",
+    }[case["source"]]
+    kw = []
+    if case["n_conformers"] is not None:
+        kw.append(f"n_conformers={case['n_conformers']}")
+    one = case["shape"] == "one"
+    if "coords" in case["given"]:
+        kw.append("coords=np.full((1, 2, 3), 7.0)" if one else "coords=np.full((2, 3), 7.0)")
+    if "charges" in case["given"]:
+        kw.append("atomic_charges=np.full((1, 2), -3.0)" if one else "atomic_charges=np.full(2, -3.0)")
+    if "weights" in case["given"]:
+        kw.append("weights=[2.5]")
+    return "\n".join(
+        [
+            "import numpy as np, molli as ml",
+            "mol = ml.Molecule(['C', 'H']); mol.coords = 1.0; mol.atomic_charges = [0.5, -0.5]",
+            f"ens = ml.ConformerEnsemble({', '.join([src.split('   #')[0]] + kw)})",
+            "print(ens.n_conformers, ens.coords.tolist(), ens.atomic_charges.tolist(), ens.weights.tolist())   # expected: the values given, for every conformer",
+        ]
+    )
+
+
+# =================================================================================================
 def run(ctx):
     thorough = ctx.thorough
     ctx.rule = (
@@ -1905,6 +2182,8 @@ def run(ctx):
         "a conformer object is identified with a row by its declared conformer id, else by the memory its coords view",
         "'serialised' is read as: stored through molli.chem.io (MoleculeLibrary / ConformerLibrary); pickling is C06's concern; the dead legacy method ConformerEnsemble.serialize() is not called",
         "dump round trip: an independent 20-line reader per format; coordinates compared at the 6 decimals the writers print, mol2 charges at 3 decimals",
+        "a conformer keeps its ensemble alive: a view (by index, slice, iteration, pickled, copied, from a loader) that is the only thing kept still reads its row, dumps and can be written through (this is what the repaired tree does)",
+        "constructor: the number of conformers is n_conformers for no source / an atom list, n_conformers or 1 for a molecule or conformer, the source's count for a list of molecules or an ensemble; a keyword array that broadcasts to that shape is shown by the ensemble, one that does not may be rejected",
         "one view may be held (taken by index, from an iterator or from a slice) over all later steps; after every step it is read, dumped, compared with a fresh ens[i] and written through (coords=, atomic_charges=, translate); stepwise iterators are not combined with a held view",
         "the harness's own reads through conformers after each step are part of the history: they are repeated identically when a prefix is replayed",
         "the canonical form leaves array *values* out (no operation of the property branches on them); the per-step comparison with the model is exact (NaN == NaN)",
@@ -1942,10 +2221,24 @@ def run(ctx):
         ctx.pmap(_directed_part, parts)
         ctx.bound[f"directed_{i}"] = {"na": dp["na"], "observers": len(dp["obs"]), "growth_ops": len(dp["grow"]), "rounds_of_grow_then_observe": dp["rounds"], "constructors": len(dp["kinds"]), "dedup": False}
     ctx.note("directed_pass_transitions", ctx.transitions - t0)
+    # ---- the view is the only thing kept ; constructor sources x keyword arrays --------------------
+    t1 = ctx.transitions
+    nas = [2, 1, 3] if thorough else [2]
+    ctx.pmap(_life_part, [([k], na) for na in nas for k in KINDS])
+    ctx.pmap(_ctor_layer, nas)
+    ctx.bound["lifetime_layer"] = {"constructors": len(KINDS), "ways_to_keep_only_the_view": LIFE_HOW, "after_growth": [False, True], "n_atoms": nas}
+    ctx.bound["constructor_layer"] = {"sources": CTOR_SOURCES, "n_conformers": ["default", 2, 3], "keyword_arrays": "every subset of coords/atomic_charges/weights", "forms": ["full", "one row / scalar", "(1, ...)"], "n_atoms": nas}
+    ctx.note("lifetime_and_constructor_layer_transitions", ctx.transitions - t1)
     ctx.note("distinct_canonical_states", len(ctx.state_keys))
 
 
 def replay(ctx, case):
+    if case.get("layer") == "lifetime":
+        _life_part(ctx, ([case["kind"]], case.get("na", 2)))
+        return
+    if case.get("layer") == "ctor":
+        _ctor_layer(ctx, case.get("na", 2))
+        return
     sm = ESys(ctx, na=case.get("na", 2), ncmax=case.get("ncmax", 4), nit=case.get("nit", 2), label="replay")
     hist = [tuple(o) for o in case["history"]]
     st = sm.build(hist[:-1])
